@@ -212,6 +212,19 @@ pub fn run(ctx: &mut Ctx, prop: &str) {
             }
         }
     }
+    // radix literal families against a few numbers (the conversion runs inside every comparison)
+    for x in al::radix_families() {
+        if !ctx.mine() {
+            continue;
+        }
+        for y in [json!(0), json!(1), json!("0"), json!(1.8446744073709552e19), json!(true), json!([0])] {
+            ctx.edge();
+            for k in ops {
+                ctx.check(&format!("{}:radix-family", k), &op(k, vec![x.clone(), y.clone()]), &null);
+                ctx.check(&format!("{}:radix-family:V", k), &op(k, vec![json!({"var": 1}), json!({"var": 0})]), &json!([x, y]));
+            }
+        }
+    }
     // magnitude ladder: all pairs of numbers around every integer-width boundary (distinct numbers
     // that collapse into one double must compare as that double does; distinct doubles must not
     // collapse however large they are), and each number against the string spelling of its neighbours
